@@ -135,7 +135,7 @@ class Unit:
         want = {}
         for o in failed:
             p = byname.get(o.prog)
-            if p is None:
+            if p is None or o.backend == 'rustc':
                 continue
             if o.backend == 'kani':
                 tw = o.oid.split('kani:')[-1]
@@ -192,7 +192,7 @@ class Unit:
             self.kani_all(ctx, live)
         elif skipped:
             self.kani_all(ctx, skipped)
-        failed = [o for o in ctx.obligations if o.status == 'failed' and o.backend in ('verus', 'kani')]
+        failed = [o for o in ctx.obligations if o.status == 'failed']
         if failed:
             try:
                 self.counterexamples(ctx, live, failed)
